@@ -114,6 +114,8 @@ pub struct Built {
     pub events: Vec<Ev>,
     /// block index that produced each expected event
     pub ev_block: Vec<usize>,
+    /// for a flag dump: the flag bits the reference leaves undefined at that point (not compared)
+    pub ev_undef: Vec<u16>,
     pub classes: Vec<String>,
     pub nontrivial: bool,
     /// canonical text of the tested instruction of every block
@@ -203,6 +205,7 @@ pub fn build(c: &FCase, openq: &Quirks) -> Built {
     let mut code: Vec<Item> = vec![Item::Label("start".into())];
     let mut events: Vec<Ev> = Vec::new();
     let mut ev_block: Vec<usize> = Vec::new();
+    let mut ev_undef: Vec<u16> = Vec::new();
     let mut classes: Vec<String> = Vec::new();
     let mut tested: Vec<String> = Vec::new();
     let mut nontrivial = false;
@@ -418,8 +421,10 @@ pub fn build(c: &FCase, openq: &Quirks) -> Built {
                     tested.push(canonical(&insn));
                     events.push(Ev::DivErr(0));
                     ev_block.push(k);
+                    ev_undef.push(0);
                     events.push(Ev::Exiting);
                     ev_block.push(k);
+                    ev_undef.push(0);
                     classes.push("l3/divide-error-ends-program".into());
                     break 'blocks;
                 }
@@ -427,28 +432,35 @@ pub fn build(c: &FCase, openq: &Quirks) -> Built {
             tested.push(canonical(&insn));
         }
         // ---- observation
-        let mut pr = |rn: &Runner, code: &mut Vec<Item>, p: PrintStmt| {
+        let mut pr = |rn: &Runner, code: &mut Vec<Item>, p: PrintStmt, und: u16| {
             events.push(Ev::PrintHdr(0));
             ev_block.push(k);
+            ev_undef.push(0);
             events.push(ref_print(&p, &rn.mach.regs, rn.dense()));
             ev_block.push(k);
+            ev_undef.push(und);
             code.push(Item::Print(p));
         };
         if dc_regs == 0 {
-            pr(&rn, &mut code, PrintStmt::Reg);
+            pr(&rn, &mut code, PrintStmt::Reg, 0);
         }
-        if undef == 0 {
-            pr(&rn, &mut code, PrintStmt::Flags);
+        // the flags the manual leaves undefined after the tested instruction are masked out of the comparison
+        let printable = OF | DF | IF | TF | SF | ZF | AF | PF | CF;
+        if undef & printable != printable {
+            pr(&rn, &mut code, PrintStmt::Flags, undef);
+            if undef != 0 {
+                classes.push("l3/flags-printed-with-undefined-bits-masked".into());
+            }
         }
         let wins = changed_windows(&before, rn.dense());
         if !wins.is_empty() {
             classes.push("l3/memory-written".into());
         }
         for (lo, hi) in wins {
-            pr(&rn, &mut code, PrintStmt::MemRange(lo, hi));
+            pr(&rn, &mut code, PrintStmt::MemRange(lo, hi), 0);
         }
     }
-    Built { prog: Program { data, code }, events, ev_block, classes, nontrivial, tested, long_loop: work > 2500, sets_tf }
+    Built { prog: Program { data, code }, events, ev_block, ev_undef, classes, nontrivial, tested, long_loop: work > 2500, sets_tf }
 }
 
 pub fn layout_of(c: &FCase) -> Layout {
@@ -466,7 +478,7 @@ pub fn eval(prop: &str, c: &FCase, openq: &Quirks) -> CaseOutcome {
     let out = run_cli(rendered.text.as_bytes(), if stepped { Stdin::Data(&script) } else { Stdin::Closed }, interpreted, 16 << 20, 120_000);
     let exp = crate::c17::blank_lines(&normalise(&b.events));
     let replay = json!({"kind":"cli","source":rendered.text,"stdin":if stepped { "n\n".repeat(6000) } else { String::new() },"interpreted":interpreted,"blank_line_numbers":true,"drop_prompt_chatter":stepped,
-        "tested": b.tested, "expected_events": exp.iter().map(|e| format!("{:?}", e)).collect::<Vec<_>>()});
+        "tested": b.tested, "flag_masks": b.ev_undef, "expected_events": exp.iter().map(|e| format!("{:?}", e)).collect::<Vec<_>>()});
     match &out.status {
         Status::Timeout | Status::SpawnError(_) => return CaseOutcome::Inconclusive(format!("{:?}", out.status)),
         _ => {}
@@ -484,7 +496,18 @@ pub fn eval(prop: &str, c: &FCase, openq: &Quirks) -> CaseOutcome {
         Err(e) => return CaseOutcome::Fail { key: format!("{}|l3|unparsable-output", lp), what: format!("[{}]: {}", b.tested.join("; "), e), replay },
     };
     let toks: Vec<Ev> = if stepped { toks.into_iter().filter(|e| !matches!(e, Ev::About(_) | Ev::TrapNote | Ev::Prompt | Ev::Int3(_))).collect() } else { toks };
-    let obs = crate::c17::blank_lines(&toks);
+    let mut obs = crate::c17::blank_lines(&toks);
+    let mut exp = exp;
+    // undefined flag bits are not compared (events align index by index: the program prints a fixed sequence)
+    for i in 0..exp.len().min(obs.len()).min(b.ev_undef.len()) {
+        let m = b.ev_undef[i];
+        if m != 0 {
+            if let (Ev::Flags(e), Ev::Flags(o)) = (exp[i].clone(), obs[i].clone()) {
+                exp[i] = Ev::Flags(e & !m);
+                obs[i] = Ev::Flags(o & !m);
+            }
+        }
+    }
     if exp != obs {
         let d = crate::c17::first_diff(&exp, &obs);
         let mut at = exp.len().min(obs.len());
